@@ -63,6 +63,7 @@ def locate(world, c):
 def verify_contract(world, c, cache=None, max_paths=4000, limits=None):
     rep = FunctionReport(c)
     t0 = time.time()
+    pv.STR_SUBCLASS_EQ = 'str_subclass_equality' in c.notes
     try:
         src, node = locate(world, c)
     except (Unsupported, OSError) as e:
